@@ -61,6 +61,7 @@ def internalsStr (s : ADB) : String :=
   "J" ++ toString s.journal.length
     ++ " R" ++ String.intercalate "," (s.revisions.map (fun r => toString r.1 ++ "@" ++ toString r.2))
     ++ " N" ++ toString s.nextRev
+    ++ " L" ++ toString s.logSize
     ++ " D[" ++ String.intercalate "," ((sortKV (s.dirtySet.map (fun a => (a, ())))).map (fun p => toHex p.1)) ++ "]"
     ++ " O{" ++ String.intercalate ";" ((sortKV s.objs).map objStr) ++ "}"
 
